@@ -22,7 +22,7 @@ RULE = ('one run = 2-4 client tasks (own transaction manager, pooled '
         '>= 2 commits and >= 1 context switch; distinct = hash of the '
         'schedule trace')
 BUDGET = {'quick': {'runs': 6000, 'wall': 300, 'chunk': 20},
-          'thorough': {'runs': 600000, 'wall': 1800, 'chunk': 100}}
+          'thorough': {'runs': 600000, 'wall': 1200, 'chunk': 100}}
 ASSUMPTIONS = [
     'pre-emption points are lock operations and raw file I/O (the '
     'granularity the property states), not arbitrary bytecodes',
